@@ -57,10 +57,10 @@ namespace cnl {
             }
             CNL_ASSERT(d <= static_cast<FloatingPoint>(std::numeric_limits<int_t>::max()));
             auto left{fraction<int_t>(static_cast<int_t>(d), 1)};
-            auto right{fraction<int_t>{static_cast<int_t>(left.numerator + 1), 1}};
             if (static_cast<FloatingPoint>(left) == d) {
                 return left;
             }
+            auto right{fraction<int_t>{static_cast<int_t>(left.numerator + 1), 1}};
             if (static_cast<FloatingPoint>(right) == d) {
                 return right;
             }
